@@ -212,3 +212,16 @@ package turn
 //@   requires inboundReady(c)
 //@   ensures [C09:listen-ends-only-on-read-error] lastReadFailed
 //@   loop 0 invariant inboundReady(c) && len(buf) == maxDataBufferSize && fresh(base(buf))
+
+// ---- C05/C06/C07/C09 (server entry): the per-socket read loop. Every datagram shorter than the inbound MTU is handed,
+// whole and with its true source, to HandleRequest together with the server's configured timeouts; a datagram that fills
+// the buffer may be truncated and is dropped; handler errors are reported and the loop goes on; it ends only when
+// reading the socket fails. `assume-callee-pre`: HandleRequest's precondition (the allocation manager's invariants)
+// is assumed here - each handler re-establishes it, which is proved per handler, not for this loop.
+//@ func (*Server).readLoop
+//@   assume-callee-pre
+//@   requires s != nil && conn != nil && s.log != nil && s.inboundMTU > 0
+//@   at-call server.HandleRequest assert [C05,C09:whole-datagram] n < s.inboundMTU && sameSlice(arg0.Buff, buf[:n]) && arg0.SrcAddr == addr && arg0.Conn == conn
+//@   at-call server.HandleRequest assert [C06,C07:configured-timeouts] arg0.ChannelBindTimeout == s.channelBindTimeout && arg0.PermissionTimeout == s.permissionTimeout && arg0.AllocationLifetime == s.allocationLifetime && arg0.AllocationManager == allocationManager && arg0.NonceHash == s.nonceHash && arg0.Realm == s.realm
+//@   ensures [C09:serve-ends-only-on-read-error] lastReadFailed
+//@   loop 0 invariant fresh(base(buf)) && len(buf) > 0
